@@ -780,6 +780,10 @@ pub fn judge(c: &Case) -> Judged {
                     }
                     Verdict::Reject(r) => {
                         classes.push("accept/ref-reject".into());
+                        // C04's first clause holds for *every* accepted input
+                        if obs.enc[..] != c.bytes[..(*used).min(c.bytes.len())] {
+                            push("C04", o.kt, "re-encoding differs from the consumed input".into(), format!("consumed {used} bytes, re-encoding has {}", obs.enc.len()));
+                        }
                         let only_sig = r == &vec![Rule::R18SignatureInvalid];
                         // soundness: always C01 when the signature is what is wrong; structural rules are C02's
                         if only_sig || c.family == "byte" || c.family == "sigfield" {
